@@ -152,7 +152,7 @@ PROPS["C03"] = {
                    "cannot see): decode() hands block b the views data[b..], error[b..] with stride = number of blocks and err_len = k "
                    "of that size, for every block; the corrected codeword is addressed through exactly the strided chain the syndromes "
                    "were computed from at position n-i-1, after rejecting i >= n; success is only reported for a verified codeword "
-                   "(SYNZERO); the syndromes are exactly c(alpha^1)..c(alpha^k) of the block's word (SYNDROMES, by folding over linear forms) and each block's word is the right strided selection for all 48 sizes (PROV-RSDEC, by folding decode() on opaque codewords); the Chien search is exhaustive (ROOT-COVER); block structure numbers equal the standard. (The generator table is the encoder's business: C06.)",
+                   "(SYNZERO); the syndromes are exactly c(alpha^1)..c(alpha^k) of the block's word (SYNDROMES, by folding over linear forms) and each block's word is the right strided selection for all 48 sizes (PROV-RSDEC, by folding decode() on opaque codewords); the Chien search is exhaustive (ROOT-COVER; when its statement shapes are not recognised and in the thorough tier: chien_search folded with opaque coefficients - each of the 256 field elements x is reported exactly when p(x) = 0); GS-EXEC, the fallback and thorough-tier companion of GATHER-SCATTER and SYNZERO, folds decode_gen on opaque block views with a model locator (one error at index i, value E): the store hits exactly chain position n-i-1 with codeword - E, an index >= n is refused, both syndrome evaluations run over the whole chain with all k cells, and Ok is returned exactly when the re-evaluation is clean; block structure numbers equal the standard. (The generator table is the encoder's business: C06.)",
     "assumptions": ["default cargo features"],
     "technique": "provenance and shape rules over THIR (strided-view equality), typestate, partial evaluation of decode() / syndrome evaluation on opaque codewords per symbol size",
 }
@@ -208,7 +208,9 @@ PROPS["C04"] = {
                    "UnexpectedEnd exactly for a stream that ends early; the EDIFACT value table is read off decode_edifact folded as a whole "
                    "(every six-bit value at each of the four positions of a triple, unlatch at each position). NOT decided: that the state "
                    "machines compose correctly for every legal script (pad checking and mode sequences are loops over run-time positions); "
-                   "the Base256 streams are a grid, not all streams.",
+                   "the Base256 streams are a grid, not all streams. When the statement shapes of the termination forms are not recognised, "
+                   "DEC-THRESH reads them off the three packed-mode decoders folded on every stream shape of up to five codewords "
+                   "(consumed / appended counts and the next mode).",
     "assumptions": ["default cargo features"],
     "technique": "decision-table extraction from THIR (finite-domain folding of loop bodies) against transcribed ISO tables; whole-function partial evaluation of the Base256 and EDIFACT decoders",
 }
